@@ -5,7 +5,9 @@ MODULE = "StorageModel.Properties.C07"
 THEOREMS = ["table_is_expected", "delivery_is_expected", "holder_plumbing_is_expected", "raised_only_grows", "op_error_surfaces",
             "op_failure_kind_surfaces", "no_false_success", "no_false_success_any_fault", "tx_atomic",
             "tx_error_surfaces", "caller_error_surfaces", "first_run_error_surfaces", "pre_commit_error_surfaces",
-            "rejected_operation_surfaces", "rejected_link_step_surfaces", "tx_raised_surfaces", "tx_no_false_success", "history_refines_spec"]
+            "rejected_operation_surfaces", "rejected_link_step_surfaces", "tx_raised_surfaces", "tx_no_false_success", "history_refines_spec",
+            # batch groups (several Db.Batch calls coalesced by bbolt into one batch), every schedule
+            "batch_group_atomic", "batch_group_no_false_success"]
 
 TABLE_OBLIGATIONS = [
     "table_is_expected (Generated/CrudReturns.lean: return paths of Create/Update/DeleteById/DeleteWhere, processDeleteConstraints, fireParentEvent, fireEvents, processPreCommit regenerated from boltz/store_crud.go and boltz/store.go)",
@@ -40,7 +42,10 @@ RULE = ("histories of 1-4 transactions (Db.Update / Db.Batch, fresh or reused Mu
         "list, empty / over-long key - with nothing injected, unparsable query) x Update and Batch, exhaustively; thorough tier also every body of two "
         "operations x every position x every kind; (b) sampled bodies of 2-5 operations with one failure at a "
         "random position; (c) random histories incl. nested Update calls, swallowed errors, reused contexts, up to "
-        "2 custom index-stage constraints per store. Non-trivial = at least one transaction of the history fails; "
+        "2 custom index-stage constraints per store; (d) batch groups: 2-4 Db.Batch calls coalesced by bbolt into one batch "
+        "(every member position x a fault on its 1st / 2nd / 3rd invocation, members that fail always / once / never, members "
+        "working on the same entity, reused contexts, random groups among the other transaction modes). "
+        "Non-trivial = at least one transaction of the history fails; "
         "distinct = distinct case line")
 
 
@@ -48,6 +53,7 @@ def run(ctx, replay_cases=None):
     ctx.assumptions += [
         "bbolt rolls a transaction back when its function returns an error and runs OnCommit handlers only after a successful commit, in registration order (modelled; the harness compares the full boltz.Traverse leaf dump before and after every failed transaction and the callback logs)",
         "bbolt Batch re-runs a failing function alone (modelled as a second attempt; observed through the body run counter)",
+        "bbolt's DB.Batch with several queued calls (one shared transaction per round in arrival order, rollback + solo re-run of the failing call, re-run of the rest) is modelled literally from go.etcd.io/bbolt db.go, not verified; the order in which the solo re-runs and the rounds get the writer lock is observed in the implementation's run and handed to model and spec as the schedule (the theorems hold for every schedule)",
         "the entity table determines every index bucket (C03/C04); the harness compares the leaf dump of the real database with the rendering of the model's table after every committed transaction",
         "custom index-stage constraints only log their calls and call ctx.ErrHolder.SetError for the listed (stage, id) pairs; errorz.ErrorHolderImpl.SetError keeps the first error (library outside the repository, exercised by the correspondence)",
         "string pools are ASCII; long values are runs of one byte",
